@@ -123,6 +123,22 @@ def mesh_expand_specs(ctx):
     return specs
 
 
+def complete_poll_specs(ctx):
+    """complete_poll = True with the optimum in a corner / behind a constraint: many poll steps have fewer than 2D candidates left after the
+    box (and constraint) filter, and each of them still polls every surviving direction exactly once."""
+    from .. import gen
+    rng = ctx.sub_rng("c14complete")
+    specs = []
+    for i in range(5 if ctx.quick else 40):
+        sp = gen.make_spec(rng, D=rng.choice([2, 2, 3]), mode=["det", "det", "decl"][i % 3], geom=rng.choice(["box", "tight"]), cons=rng.choice([None, None, "halfspace"]),
+                           opt_loc=rng.choice(["outside", "on_bound"]), target=rng.choice(["quad", "abs"]))
+        sp["options"] = {"n_search": 32, "complete_poll": True, "max_fun_evals": (sp["D"] + 60) if sp["mode"] == "det" else 110, "noise_final_samples": 0}
+        if rng.random() < 0.4:
+            sp["options"].update({"search_grid_multiplier": 0, "search_grid_number": rng.choice([1, 2])})      # mesh ratio 2 / 4
+        specs.append(sp)
+    return specs
+
+
 def fine_mesh_specs(ctx):
     """Runs with a tiny specified (or no) noise that go on until the mesh is very fine (2^-16 and below): poll candidates then lie within
     ~1e-5 relative of points evaluated earlier."""
@@ -184,6 +200,7 @@ def run_level(ctx, rep):
     if not getattr(ctx, "_replaying", False):
         runlevel.with_extra(ctx, "c14expand", lambda: mesh_expand_specs(ctx))
         runlevel.with_extra(ctx, "c14fine", lambda: fine_mesh_specs(ctx))
+        runlevel.with_extra(ctx, "c14complete", lambda: complete_poll_specs(ctx))
     traces = runlevel.get_pool(ctx)
     stats = {"polls": 0, "poll_calls": 0, "runs": 0, "nmax_gt_1": 0}
     preqs, owners = [], []
@@ -199,6 +216,11 @@ def run_level(ctx, rep):
             if k == "ITER":
                 last_iter = e
             if k == "DIRS":
+                if cur is not None and "two_bases" not in cur:
+                    # a second direction basis generated inside the SAME poll step: the directions of a poll step are ONE set {+-d_1..+-d_D}
+                    cur["two_bases"] = True
+                    rep.violation("each_dir_once", "bads.py:_poll_step_", f"a poll step generated a second direction basis after polling {len(cur['calls'])} point(s) of the first "
+                                  f"(directions can then be polled twice); {runlevel.spec_tag(t['spec'])}", {"kind": "poll_run", "spec": t["spec"]})
                 cur = {"e": e, "calls": [], "iter": last_iter}
                 stats["polls"] += 1
                 Bs = np.array(e["B"]) * np.array(e["poll_scale"])
